@@ -1,6 +1,7 @@
 package c19
 
 import (
+	"bytes"
 	"strconv"
 	"strings"
 
@@ -185,20 +186,26 @@ func containsTable(b Blk) bool {
 	return false
 }
 
-// failing block of a fidelity failure ("@<top> ..." prefix of the detail)
-func topOf(c Case, f kit.Failure) (Blk, bool) {
+// failing top-level block(s) of a fidelity failure: the "@<top> " or (M1 only) "@<first>-<last> " prefix of the detail
+func topsOf(c Case, f kit.Failure) []Blk {
 	if c.Kind != "ast" || !strings.HasPrefix(f.Detail, "@") {
-		return Blk{}, false
+		return nil
 	}
 	end := strings.IndexByte(f.Detail, ' ')
 	if end < 0 {
-		return Blk{}, false
+		return nil
 	}
-	n, err := strconv.Atoi(f.Detail[1:end])
-	if err != nil || n < 0 || n >= len(c.Doc) {
-		return Blk{}, false
+	spec := f.Detail[1:end]
+	lo, hi := spec, spec
+	if i := strings.IndexByte(spec, '-'); i > 0 {
+		lo, hi = spec[:i], spec[i+1:]
 	}
-	return c.Doc[n], true
+	a, err1 := strconv.Atoi(lo)
+	b, err2 := strconv.Atoi(hi)
+	if err1 != nil || err2 != nil || a < 0 || b < a || b >= len(c.Doc) {
+		return nil
+	}
+	return c.Doc[a : b+1]
 }
 
 func clauseIn(f kit.Failure, cl ...string) bool {
@@ -208,16 +215,6 @@ func clauseIn(f kit.Failure, cl ...string) bool {
 		}
 	}
 	return false
-}
-
-func onBlock(pred func(Blk) bool, clauses ...string) func(Case, kit.Failure) bool {
-	return func(c Case, f kit.Failure) bool {
-		if !clauseIn(f, clauses...) {
-			return false
-		}
-		b, ok := topOf(c, f)
-		return ok && pred(b)
-	}
 }
 
 type shape struct {
@@ -253,12 +250,35 @@ func kf(id, desc string, clauses ...string) kit.Finding[Case] {
 		if !clauseIn(f, clauses...) {
 			return false
 		}
-		b, ok := topOf(c, f)
-		return ok && p(c, b)
+		for _, b := range topsOf(c, f) {
+			if p(c, b) {
+				return true
+			}
+		}
+		return false
 	}}
 }
 
+// mathPanicTrigger: math on, the source holds at least two `$$`, and the panic is the failed type assertion on
+// the math block parser's per-parse state (goldmark-mathjax block.go Continue). Root cause: that parser keeps the
+// state of "the" open formula under one context key and clears it in Close; goldmark opens the blocks of a line
+// before it closes the blocks the line ended, so a `$$` line that both ends the reach of an open formula (the line
+// right after a closing `$$`, which the parser over-advances onto, or a line leaving the quote/list item that holds
+// an unclosed formula) and opens a new one gets its fresh state wiped, and the next line panics.
+func mathPanicTrigger(c Case, f kit.Failure) bool {
+	if f.Clause != "C19.M0" || !c.Opts.Math || !strings.Contains(f.Detail, "is nil, not *mathjax.mathBlockData") {
+		return false
+	}
+	src := c.Bytes()
+	if c.Kind == "ast" {
+		src = []byte(c.Markdown())
+	}
+	return bytes.Count(src, []byte("$$")) >= 2
+}
+
 var findings = []kit.Finding[Case]{
+	{ID: "KF-C19-math-panic", Clause: "C19.M0", Trigger: mathPanicTrigger,
+		Desc: "with math on, a display formula that starts on the line right after the closing $$ of another one (or on the line that leaves a quote/list item holding an unclosed one) makes conversion panic in the math block parser (nil *mathjax.mathBlockData)"},
 	kf("KF-C19-escape-raw", "backslash escapes and entity references in paragraph text are copied raw (\\* stays \\*, &amp; stays &amp;)", "M1", "M2"),
 	kf("KF-C19-autolink", "an autolink <http://…> vanishes from the paragraph: its visible text is lost", "M1", "M2"),
 	kf("KF-C19-hardbreak", "a hard line break is rendered as nothing: the words on both sides are glued together", "M2"),
